@@ -22,3 +22,26 @@ package auditlog
 //@ foreach F in intfields(LogDetails)
 //@ effect[C27:hash-covers-@F] every sha512.Sum512(__) needs before binary.Write(_, _, $v)
 //@     where specIsLog(e) && e.Version >= specSinceVersion("@F") ==> $v.(@@F) == specLog(e).@F
+
+// Chain validation. An entry is accepted only if its recorded hash is the hash of its content, it continues the chain
+// (entry 0: a GENESIS entry; every later entry: its previous hash is the hash of the entry accepted before it), and its
+// signature verifies when a verifier is configured; accepting it advances the chain by exactly this entry. Together
+// with the hash contract above this is what makes an altered, inserted, dropped, duplicated or reordered entry fail:
+// any of these changes some entry's content or predecessor, hence (SHA-512 assumed collision free) a hash that is compared.
+//@ func (*Validator).ValidateEntry
+//@ mode nosafety
+//@ requires entry != nil
+//@ assigns v.PrevHash v.HashBuffer v.Index
+//@ ensures[C27:accepted-entry-has-its-hash] err == nil ==> bytes.Equal(result_of(entry.CalculateHash, 0), entry.Hash)
+//@ ensures[C27:accepted-entry-continues-the-chain] err == nil && old(v.Index) != 0 ==> bytes.Equal(entry.PreviousHash, old(v.PrevHash))
+//@ ensures[C27:first-entry-is-genesis] err == nil && old(v.Index) == 0 ==> entry.Type == EntryTypeGenesis && called(sha512.Sum512)
+//@ ensures[C27:signature-verified] err == nil && v.Ed25519Verifier != nil ==> called(entry.Verify) && result_of(entry.Verify, 0)
+//@ ensures[C27:chain-advances-by-this-entry] err == nil ==> same(v.PrevHash, entry.Hash) && v.Index == old(v.Index) + 1
+//@ ensures[C27:rejected-entry-leaves-the-chain] err != nil ==> same(v.PrevHash, old(v.PrevHash)) && v.Index == old(v.Index)
+//@ ensures[C27:grounding-only-after-a-full-block] err == nil && entry.Type == EntryTypeGrounding ==> len(old(v.HashBuffer)) == GroundingBlockSize && called(CalculateMerkleRoot)
+
+// An entry verifies only if its recorded hash is the hash of its content and the verifier accepts the signature over
+// that hash. (No assigns clause: verifying does not change the entry.)
+//@ func (*Entry).Verify
+//@ mode nosafety
+//@ ensures[C27:verify-needs-hash-and-signature] result ==> bytes.Equal(result_of(e.CalculateHash, 0), e.Hash) && called(verifier.Verify) && result_of(verifier.Verify, 0)
